@@ -190,10 +190,20 @@ func (r *fileRewriter) stmtInner(s ast.Stmt, outerPos token.Pos) {
 			return
 		}
 		if c, name, ok := isMethodCall(n.X, "Lock", "RLock", "Unlock", "RUnlock"); ok && len(c.Args) == 0 {
-			r.exprChildrenOfCall(c)
 			if name == "Lock" || name == "RLock" {
-				r.insSuffix(n.End(), "; __vs.Locked()")
+				// x.Lock() -> __vs.LockVia(site, x.TryLock, x.Lock): a contended mutex makes the goroutine wait in the
+				// simulator (sync.Mutex is not durably blocking for synctest), so a deadlock on a mutex is a
+				// verdict instead of a hung bubble
+				sel := c.Fun.(*ast.SelectorExpr)
+				recv := string(r.src[r.off(sel.X.Pos()):r.off(sel.X.End())])
+				try := "TryLock"
+				if name == "RLock" {
+					try = "TryRLock"
+				}
+				id := r.site(n.Pos(), "lock")
+				r.replace(n.Pos(), n.End(), fmt.Sprintf("__vs.LockVia(%d, %s.%s, %s.%s)", id, recv, try, recv, name))
 			} else {
+				r.exprChildrenOfCall(c)
 				r.insSuffix(n.End(), "; __vs.Unlocked()")
 			}
 			return
